@@ -18,6 +18,8 @@ def main():
     from vmon.spec import cdb as S
 
     progs = spec["progs"]
+    if any(p.startswith("data:") for p in progs):
+        return data_main(spec)
     cs = [S.COMMANDS[p] for p in progs]
     # modules are imported up front (imports define, they use nothing): a thread preempted inside an import would hold
     # the import lock and manufacture a deadlock the program cannot have
@@ -48,6 +50,46 @@ def main():
             continue
         what = ["cdb", "datain_len", "dataout", "decode", "encode"]
         out["threads"].append({"prog": progs[i], "differs": [what[j] for j in range(5) if got[j] != solo[j]]})
+    print(json.dumps(out))
+
+
+def data_main(spec):
+    """threads that decode a device response of their own ("data:<format>:<descriptors>"); judged against the *reference*
+    expectation, not against a later solo run in this interpreter (first-use damage may be permanent)"""
+    import random
+
+    from vmon.mon.sched import Scheduler
+    from vmon.spec import datain as D
+
+    import pyscsi.pyscsi.scsi_enum_command  # noqa: F401
+    import pyscsi.utils.converter  # noqa: F401
+
+    jobs = []
+    for p, salt in zip(spec["progs"], spec["salts"]):
+        _d, fname, count = (p.split(":") + ["3"])[:3]
+        f = D.FORMATS[fname]
+        f.lib_cls()
+        rng = random.Random("cold:%s:%s" % (p, salt))
+        v = f.gen(rng, ("count", int(count), 0) if fname == "reporttargetportgroups" else ("count", int(count)))
+        jobs.append((p, f, v, bytes(f.encode(v))))
+    sch = Scheduler()
+    try:
+        r = sch.run([(lambda f=f, v=v, b=b: f.lib_decode(b, v)) for _p, f, v, b in jobs], {int(k): v for k, v in spec["schedule"].items()})
+    finally:
+        sch.close()
+    out = {"steps": r["steps"], "per_thread": r["per_thread"], "interleaved": r["interleaved"], "hung": r["hung"], "threads": []}
+    for i, (p, f, v, b) in enumerate(jobs):
+        if r["errors"][i] is not None:
+            out["threads"].append({"prog": p, "error": "%s: %s" % (type(r["errors"][i]).__name__, r["errors"][i])})
+            continue
+        diffs = D.subset_diff(f.expect(v), r["results"][i]) if r["results"][i] is not None else [("unfinished", "")]
+        # and once more afterwards, single-threaded, with a fresh response of the same size: lasting damage shows here
+        v2 = f.gen(random.Random("cold-after:%s" % p), ("count", len(v.get("_luns", [])) or 3))
+        try:
+            later = D.subset_diff(f.expect(v2), f.lib_decode(f.encode(v2), v2))
+        except Exception as e:  # noqa: BLE001
+            later = [("raises", repr(e))]
+        out["threads"].append({"prog": p, "differs": (["decode:%s" % diffs[0][0]] if diffs else []) + (["decode_afterwards:%s" % later[0][0]] if later else [])})
     print(json.dumps(out))
 
 
